@@ -229,6 +229,16 @@ theorem C04_every_node (L : Lang) (σ : Store) (e f x : TExpr) (t : Term) (h : T
     (∃ p, den ρ f.ty = .app FUN [p, den ρ t] ∧ Sub L (den ρ x.ty) p) ∨
     (den ρ f.ty = .app TOP [] ∧ den ρ t = .app TOP []) := every_node h hs hρ
 
+/-- A shared expression object `.shared key e` (the same object wherever it occurs) is transparent:
+it is typed in a store exactly when the expression it stands for is; its type is that of `e`. -/
+theorem C04_shared (L : Lang) (σ : Store) (key : Nat) (e : TExpr) :
+    (TypedIn L σ (.shared key e) ↔ TypedIn L σ e) ∧ (TExpr.shared key e).ty = e.ty :=
+  ⟨typedIn_shared, rfl⟩
+
+/-- the shared object `f -`: typed in the final store of `g(f -)`; below a shared node the tree goes on -/
+example : TypedIn c4L s4.store (.shared 7 eFS) ∧ SubExpr eFS (.app eG (.shared 7 eFS) (.app 6 [])) :=
+  ⟨typedIn_shared.mpr eFS_typed, .arg (.shared (.refl _))⟩
+
 /-- the inner node `f -` of `g(f -)` -/
 example : SubExpr eFS eGFS ∧ Sat c4L (valOf [.app 6 [], .app 6 []]) s4.store :=
   ⟨.arg (.refl _), ex_sat4⟩
